@@ -69,6 +69,7 @@ func c08Case(w *core.Worker, i int) {
 	udf := "f(id)"
 	var sql string
 	valid := true
+	setAttr := false
 	switch stmt {
 	case "insert-values":
 		if fail != "rowlen" && fail != "divzero" && fail != "unknown-field" {
@@ -172,6 +173,12 @@ func c08Case(w *core.Worker, i int) {
 		if fail == "ambiguous" {
 			valid, sql = true, fmt.Sprintf("ALTER TABLE %s ADD (x, c1);", tn) // a column of that name exists
 		}
+		// ALTER TABLE .. SET <attribute> rejected for a JSON / CSV table: the attribute must not stick
+		if fail == "rowlen" && state != "temp" {
+			valid, setAttr = true, true
+			sql = []string{"ALTER TABLE j SET ENCODING TO 'UTF16';", "ALTER TABLE j SET ENCODING TO 'SJIS';", "ALTER TABLE j SET FORMAT TO 'NOSUCH';", "ALTER TABLE j SET LINE_BREAK TO 'XX';", "ALTER TABLE j SET JSON_ESCAPE TO 'NOSUCH';",
+				"ALTER TABLE t SET DELIMITER TO 'ab';", "ALTER TABLE t SET ENCODING TO 'NOSUCH';", "ALTER TABLE t SET HEADER TO 'maybe';", "ALTER TABLE t SET ENCLOSE_ALL TO 3;", "ALTER TABLE t SET DELIMITER_POSITIONS TO 'x';"}[(k+size)%10]
+		}
 	}
 	if !valid || k < 1 || k > size {
 		w.Case(combo+"#"+strconv.Itoa(round), false)
@@ -180,7 +187,7 @@ func c08Case(w *core.Worker, i int) {
 	// tables
 	tp := colProfile{Kind: "text", Vals: c05Texts, NullPct: 10}
 	gt := genTable(r, "t", size, []colProfile{tp, tp}, []string{"c1", "c2"})
-	files := map[string]string{"t.csv": gt.CSV(), "u.csv": "id,c1\n1,one\n2,two\n", "one.csv": "id\n1\n",
+	files := map[string]string{"t.csv": gt.CSV(), "u.csv": "id,c1\n1,one\n2,two\n", "one.csv": "id\n1\n", "j.json": "[{\"id\":1,\"c1\":\"a\"},{\"id\":2,\"c1\":\"b\"}]",
 		"d.csv": fmt.Sprintf("id,c1\n%d,dupA\n%d,dupB\n", k, k)}
 	dir := core.FreshDir(w.Work, "repo")
 	core.WriteFiles(dir, files)
@@ -285,6 +292,16 @@ func c08Case(w *core.Worker, i int) {
 			viol("file-left", fmt.Sprintf("the failed CREATE TABLE left %s in the repository", n))
 		}
 	}
+	if setAttr {
+		// a successful change of both tables afterwards: what COMMIT writes must be what it writes without the rejected statement
+		for _, q := range []string{"UPDATE j SET c1 = 'ok' WHERE id = 1;", "UPDATE t SET c2 = 'ok' WHERE id = 1;"} {
+			if r2 := run(q); r2.Err != nil {
+				viol("statement-after-failure-fails", fmt.Sprintf("%s: %v", q, r2.Err))
+			}
+		}
+		dirty = true
+		before = snap()
+	}
 	// a later COMMIT writes none of the partial effects
 	cres := s.Exec("COMMIT;")
 	if cres.Err != nil {
@@ -297,6 +314,26 @@ func c08Case(w *core.Worker, i int) {
 	for _, n := range final.Names() {
 		if core.IsControlFile(n) || n == "created.csv" {
 			viol("file-left-after-commit", "after COMMIT the repository holds "+n)
+		}
+	}
+	if setAttr {
+		ctl := core.FreshDir(w.Work, "control")
+		core.WriteFiles(ctl, files)
+		if cs, err := core.NewSess(core.SessOpts{Dir: ctl, CPU: 1, Quiet: true}); err == nil {
+			for _, q := range setup {
+				if q != sql && !strings.HasPrefix(q, "DECLARE f ") {
+					cs.Exec(q)
+				}
+			}
+			cs.Exec("COMMIT;")
+			cs.Close()
+			for _, fn := range []string{"j.json", "t.csv"} {
+				got, _ := os.ReadFile(filepath.Join(dir, fn))
+				want, _ := os.ReadFile(filepath.Join(ctl, fn))
+				if !bytes.Equal(got, want) {
+					viol("partial-effect-committed", fmt.Sprintf("%s after COMMIT differs from what the same transaction writes without the rejected statement: %q vs %q", fn, truncateStr(string(got), 120), truncateStr(string(want), 120)))
+				}
+			}
 		}
 	}
 	if !dirty {
